@@ -84,6 +84,9 @@ def annotate_citations(
         if offset_updater:
             start = offset_updater.update(start, bisect_right)
             end = offset_updater.update(end, bisect_left)
+            # an empty span at an insertion point translates to an end
+            # before its start; keep it empty instead of inverted
+            end = max(start, end)
 
         # handle overlaps
         if start < last_end:
